@@ -697,7 +697,7 @@ func ruleDrainState(r *Run, rule string, fn *Func, owner string) {
 						}
 					}
 				}
-				if e.Taken && strings.Contains(ExprStr(e.Cond), "BypassChecks.State.Status == workflow.Completed") {
+				if Establishes(info, e, fieldMatcher(info, "", "BypassChecks", "State", "Status"), "workflow.Completed", true) {
 					excused = true
 				}
 				// a conjunction of the two spawn guards that is false: with the cancel function known
